@@ -121,9 +121,21 @@ func (in *Interp) newJSONBlob(n *JNode) *Blob {
 // blobStr materialises the string term of a blob (opaque symbol for symbolic JSON blobs).
 func (in *Interp) blobStr(b *Blob) *Term {
 	if b.Str == nil {
-		in.ts.big[fmt.Sprintf("json#%d", b.ID)] = true
-		b.Str = in.ts.FreshSym(fmt.Sprintf("json#%d", b.ID), StrSort)
-		in.addPC(in.ts.Eq(in.ts.SLen(b.Str), in.jsonLen(b.Node)))
+		// structurally identical trees share one symbol (congruence for hashes / signatures comes for free)
+		key := "jsonsym:" + in.nodeKey(b.Node)
+		if t, ok := in.hooks[key].(*Term); ok {
+			b.Str = t
+			return t
+		}
+		name := fmt.Sprintf("json#%d", b.ID)
+		in.ts.big[name] = true
+		b.Str = in.ts.FreshSym(name, StrSort)
+		in.hooks[key] = b.Str
+		if in.params["exact_json_len"] != "" {
+			in.addPC(in.ts.Eq(in.ts.SLen(b.Str), in.jsonLen(b.Node)))
+		} else {
+			in.addPC(in.ts.ILe(in.ts.Int(int64(in.jsonMinLen(b.Node))), in.ts.SLen(b.Str)))
+		}
 		in.blobs = append(in.blobs, b)
 		if in.blobOfStr == nil {
 			in.blobOfStr = map[*Term]*Blob{}
@@ -131,6 +143,100 @@ func (in *Interp) blobStr(b *Blob) *Term {
 		in.blobOfStr[b.Str] = b
 	}
 	return b.Str
+}
+
+// nodeKey: syntactic identity of a tree (term ids).
+func (in *Interp) nodeKey(n *JNode) string {
+	var sb strings.Builder
+	var walk func(n *JNode)
+	tid := func(t *Term) {
+		if t == nil {
+			sb.WriteString("_")
+		} else {
+			sb.WriteString(strconv.Itoa(t.id))
+		}
+		sb.WriteByte(',')
+	}
+	walk = func(n *JNode) {
+		sb.WriteString(strconv.Itoa(int(n.K)))
+		sb.WriteByte(':')
+		switch n.K {
+		case JBool, JStr, JTime:
+			tid(n.T)
+		case JNum:
+			tid(n.T)
+			sb.WriteString(n.Text)
+			if n.Signed {
+				sb.WriteByte('s')
+			}
+		case JBytes:
+			if n.Bytes.Blob != nil {
+				sb.WriteString("B")
+				tid(in.blobStr(n.Bytes.Blob))
+			} else {
+				for _, e := range n.Bytes.A {
+					tid(e.(*Term))
+				}
+			}
+		case JArr:
+			sb.WriteByte('[')
+			for _, e := range n.Elems {
+				walk(e)
+			}
+			sb.WriteByte(']')
+		case JObj:
+			sb.WriteByte('{')
+			for i := range n.Keys {
+				tid(n.Keys[i])
+				walk(n.Vals[i])
+			}
+			sb.WriteByte('}')
+		}
+		sb.WriteByte(';')
+	}
+	walk(n)
+	return sb.String()
+}
+
+// jsonMinLen: a constant lower bound of the JSON text length.
+func (in *Interp) jsonMinLen(n *JNode) int {
+	switch n.K {
+	case JNull, JBool:
+		return 4
+	case JNum:
+		return 1
+	case JStr:
+		if n.T.IsConst() {
+			return len(n.T.s) + 2
+		}
+		return 2
+	case JTime:
+		return 22
+	case JBytes:
+		if n.Bytes.Blob == nil {
+			return 4*((len(n.Bytes.A)+2)/3) + 2
+		}
+		return 2
+	case JArr:
+		r := 2
+		for i, e := range n.Elems {
+			if i > 0 {
+				r++
+			}
+			r += in.jsonMinLen(e)
+		}
+		return r
+	case JObj:
+		r := 2
+		for i := range n.Keys {
+			if i > 0 {
+				r++
+			}
+			r += in.jsonMinLen(&JNode{K: JStr, T: n.Keys[i]}) + 1 + in.jsonMinLen(n.Vals[i])
+		}
+		return r
+	}
+	return 2
 }
 
 // jsonLen: length of the JSON text of a tree as an Int term (exact for concrete parts and base64; bounded fresh
